@@ -925,9 +925,7 @@ pub fn stress(a: &Args) {
             tr().ev(json!({"ev":"clone","h":1,"h2":p + 2}));
             let s = sink.clone();
             js.push(std::thread::spawn(move || {
-                if aligned {
-                    pin_to(1 + p);
-                }
+                pin_to(1 + p);
                 let mut ok = 0u64;
                 for i in 0..per {
                     if s.emit(if i % 2 == 0 { "b:1|c" } else { "bulk.metric:2|g" }).is_ok() {
